@@ -165,6 +165,8 @@ type attr struct {
 	value string
 	// ambiguousValue indicates whether value contains an ambiguous value due to context-joining.
 	ambiguousValue bool
+	// dynamic indicates whether an action has already contributed to the attribute value.
+	dynamic bool
 	// names contains all possible names the attribute could assume because of context joining.
 	// For example, after joining the contexts in the "if" and "else" branches of
 	//     <a {{if .C}}title{{else}}name{{end}}="foo">
